@@ -509,6 +509,8 @@ def quick_variants():
         V("range/q2", "range", [0x8, 0xC], [(A, F), (B, M)], 1),
         # L7 Interconnect in front of a register-map slave at 0x10 (the slave drops awready / wready separately)
         V("icon/q1", "icon", [0x10, 0x14], [(A, F), (B, L)], 1),
+        # L8 the same RegFile class (notifying Register + MemWord) placed twice, per-instance notification outputs
+        V("twins/q1", "twins", [0x0, 0x8], [(A, F), (B, L)], 1),
     ]
 
 
@@ -552,6 +554,8 @@ def thorough_variants():
         V("memory/t3", "memory", [0x0, 0x4], [(A, F), (B, M)], 1, max_states=big),
         V("fields/t7", "fields", [0x8], [(A, F), (B, F)], 2, HW_CLEAR_ONLY, max_states=big),
         V("icon/t1", "icon", [0x10, 0x4], [(A, F), (B, L)], 1, max_states=big),
+        V("twins/t1", "twins", [0x0, 0x8, 0xC], [(A, F), (B, M)], 1, max_states=big),
+        V("twins/t2", "twins", [0x0, 0x8], [(A, F), (B, L)], 2, max_states=big),
         V("icon/t2", "icon", [0x14, 0x18], [(A, F), (B, M)], 2, max_states=big),
     ]
 
